@@ -18,12 +18,13 @@ CONSTANTS
   DNST = 3
   Ticks = {3}
   MaxNow = 3
-  MaxDg = 3
-  MaxRp = 2
+  MaxDg = 2
+  MaxRp = 1
   MaxAssoc = 2
   Slack = 0
+  Bound = 0
   ZonedPanics = FALSE
-INVARIANTS TypeOK MechNat MetricsLanguage PktCSound PktTSound PktTComplete CreateOnlyValid CreateOnce RemoveOnce CloseOnce AllReclaimed NoCrash HandleTotal FwdAuthentic ReplyAuthentic
+INVARIANTS TypeOK MechNat MetricsLanguage PktCSound PktTSound PktCPerDatagram PktTPerReply CreateOnlyValid CreateOnce RemoveOnce ReclaimedInTime CloseOnce AllReclaimed ShutdownReclaimed NoCrash HandleTotal FwdAuthentic ReplyAuthentic
 PROPERTIES FailureIsolated
 VIEW View
 CHECK_DEADLOCK FALSE
